@@ -70,6 +70,8 @@ pub struct Par {
     pub reader: usize,
     pub seed: u64,
     pub entropy: Entropy,
+    /// explicit contents per file id (adversarial scenarios); PRF cells otherwise
+    pub custom: HashMap<u64, Vec<u8>>,
 }
 
 impl Par {
@@ -81,6 +83,9 @@ impl Par {
             reader: v.get("reader").and_then(Value::as_u64).unwrap_or(0) as usize,
             seed: v.get("seed").and_then(Value::as_u64).unwrap_or(1),
             entropy: Entropy::parse(v.get("entropy").and_then(Value::as_str).unwrap_or("high")),
+            custom: v.get("custom").and_then(Value::as_object).map(|m| {
+                m.iter().map(|(k, x)| (k.parse().unwrap(), hex::decode(x.as_str().unwrap()).unwrap())).collect()
+            }).unwrap_or_default(),
         }
     }
     pub fn layers(&self) -> Layers {
@@ -165,6 +170,9 @@ pub fn classify(e: &Error, short_src: bool) -> &'static str {
 
 /// Bytes of cells [from, from+len) of file `id`
 pub fn file_bytes(par: &Par, id: u64, from: usize, len: usize) -> Vec<u8> {
+    if let Some(c) = par.custom.get(&id) {
+        return (from..from + len).map(|i| c.get(i).copied().unwrap_or(0xAA)).collect();
+    }
     (from..from + len).map(|i| cells::cell_byte(par.seed, id + 1, i as u64, par.entropy)).collect()
 }
 
